@@ -281,6 +281,10 @@ impl Runner {
     /// bookkeeping, and what each open reader is entitled to see.
     pub fn digest(&self) -> u128 {
         let bytes = self.file_bytes();
+        let file_part = match fileck::check(&bytes, self.cfg.pagesize) {
+            Ok(rep) => rep.struct_hash ^ ((bytes.len() as u128) << 3) ^ ((rep.errors.len() as u128) << 100),
+            _ => hash128(&bytes),
+        };
         let mut extra = Vec::new();
         if let Some(db) = &self.db {
             let s = db.verif_snapshot();
@@ -289,7 +293,7 @@ impl Runner {
         for (_, m, id) in &self.readers {
             extra.extend_from_slice(format!("R{}:{}", id, m.render()).as_bytes());
         }
-        hash128(&bytes) ^ hash128(&extra).rotate_left(17)
+        file_part ^ hash128(&extra).rotate_left(17)
     }
 
     fn check_committed_state(&mut self, or: &Oracles, what: &str, out: &mut Vec<Violation>) {
